@@ -78,15 +78,18 @@ func tryFindFirstCharClass(node *RegexNode, ccIn **CharSet) int {
 				cc.negate = true
 			} else {
 				// merging into what earlier branches collected: negating the set would
-				// negate those too, so add the complement of ch as ranges instead
+				// negate those too, so add the complement of ch as ranges instead (in
+				// one step: the set may take a negated normal form once they are in)
+				var rs []SingleRange
 				if node.Ch > 0 {
 					// Add the range before the excluded char.
-					cc.addRange(0, (node.Ch - 1))
+					rs = append(rs, SingleRange{0, node.Ch - 1})
 				}
 				if node.Ch < unicode.MaxRune {
 					// Add the range after the excluded char.
-					cc.addRange(node.Ch+1, unicode.MaxRune)
+					rs = append(rs, SingleRange{node.Ch + 1, unicode.MaxRune})
 				}
+				cc.addRanges(rs)
 			}
 			if node.T == NtNotone || node.M > 0 {
 				return 1
